@@ -75,6 +75,22 @@ def run(chk):
         # pc_grouped_cross
         ops.append({"op": "pc_grouped_cross", "tbl": tbl})
         checks.append(("pc_grouped_cross", meta, core.call_real(lambda: st.pc_grouped_cross(df, "g", "s")), nt))
+        # two grouping columns / list-valued `on` (pc_joint path): compared with the same statistics on an explicit combined key
+        if n >= 2:
+            df2 = df.assign(gg=[f"{a}|{b}" for a, b in zip(df["g"], df["t"])], st=[f"{a}_{b}" for a, b in zip(df["s"], df["t"])])
+            r_two = core.call_real(lambda: float(st.pc_conditional(df2, ["g", "t"], "s")))
+            r_one = core.call_real(lambda: float(st.pc_conditional(df2, "gg", "s")))
+            r_on = core.call_real(lambda: float(st.pc_conditional(df2, "g", ["s", "t"])))
+            r_on1 = core.call_real(lambda: float(st.pc_conditional(df2, "g", "st")))
+            for nm, x, y in (("two-grouping-columns", r_two, r_one), ("list-on", r_on, r_on1)):
+                same = x == y or (x[0] == y[0] == "ok" and math.isnan(x[1]) and math.isnan(y[1]))
+                if not same:
+                    chk.violation(f"C13|pc_conditional|{nm}", f"pc_conditional with {nm} = {x} differs from the same statistic on the combined key = {y}", meta)
+            if len(sorted_keys) > 1:
+                g1 = core.call_real(lambda: st.pc_grouped_cross(df2, "g", ["s", "t"]).values.tolist())
+                g2 = core.call_real(lambda: st.pc_grouped_cross(df2, "g", "st").values.tolist())
+                if str(g1) != str(g2):
+                    chk.violation("C13|pc_grouped_cross|list-on", "pc_grouped_cross with a list of feature columns differs from the joined column", meta)
         # group rows (what groupby hands to the statistics)
         ops.append({"op": "group_rows", "tbl": tbl})
         checks.append(("groupby", meta, core.call_real(lambda: [[skey(k), list(d["s"])] for k, d in sorted(list(df.groupby("g")))]), nt))
